@@ -7,16 +7,23 @@ import math
 from . import core as S
 
 
+class DrawBudgetExceeded(Exception):
+    """a strict DemonicRng was asked for more draws than the code under contract can legitimately need (e.g. more than its step cap allows)"""
+
+
 class DemonicRng:
-    def __init__(self, tag='rng', max_draws=None):
+    def __init__(self, tag='rng', max_draws=None, strict=False):
         self.tag = tag
         self.n = 0
         self.log = []
         self.max_draws = max_draws      # histories longer than this many draws are cut (path ends; bound stated by the caller)
+        self.strict = strict            # strict: exceeding the bound is not a cut but an event the harness reports (the bound is a consequence of the contract)
 
     def _name(self, kind):
         self.n += 1
         if self.max_draws is not None and self.n > self.max_draws:
+            if self.strict:
+                raise DrawBudgetExceeded('%d draws requested, at most %d can be needed' % (self.n, self.max_draws))
             raise S.PathEnd()
         return '%s_%s_%d' % (self.tag, kind, self.n)
 
